@@ -257,7 +257,7 @@ def ob_atoms(natoms):
 
 
 # ---------------------------------------------------------------- meson format --check-only / --check-diff over several files (the real mformat.run)
-CLI_TEXTS = ["x = 1\n", "x=1\n", "y = f(a, b)\n", "y = f( a,b )\n", "z = [1, 2]\n", "z = [1,2,]\n"]
+CLI_TEXTS = ["x = 1\n", "x=1\n", "y = f(a, b)\n", "y = f( a,b )\n", "z = [1, 2]\n", "z = [1,2,]\n", "x = 1"]          # the last: formatted except for the missing final newline
 
 
 class SrcFile:
@@ -290,10 +290,11 @@ def ob_check_mode():
             MF.get_meson_format = saved
         ref = MF.Formatter(None, False, False)
         would_change = [ref.format(t, Path('/x/meson.build')) != t for t in texts]
+        lines_change = [ref.format(t, Path('/x/meson.build')).splitlines() != t.splitlines() for t in texts]          # a unified diff shows lines: a missing final newline alone changes the status, not the diff
         check(rc == (1 if any(would_change) else 0), 'exit status 1 iff formatting would change some file')
         if diffmode:
             out = buf.getvalue()
-            for s, w in zip(srcs, would_change):
+            for s, w in zip(srcs, lines_change):
                 check((('--- ' + s.as_posix()) in out) == w, '--check-diff prints a diff for exactly the files that would change')
         cover('differs' if any(would_change) else 'clean')
     return h
@@ -375,7 +376,7 @@ def obligations(tier):
         for n in ((1, 2) if q else (1, 2, 3)):
             out.append(Obligation('template[%d,%d]' % (k, n), ob_template(k, n), dict(template=TEMPLATES[k]('<BODY>'), body_len=n, alphabet=SB, configuration='fully symbolic'),
                                   labels=('done',), max_paths=5000000, classify=classify))
-    out.append(Obligation('check-mode', ob_check_mode(), dict(files='1-3 out of %d texts (3 formatted, 3 not)' % len(CLI_TEXTS), mode='--check-only | --check-diff', real='mformat.run, Formatter.format'), labels=('differs', 'clean')))
+    out.append(Obligation('check-mode', ob_check_mode(), dict(files='1-3 out of %d texts (3 formatted, 3 not, 1 formatted but for the final newline)' % len(CLI_TEXTS), mode='--check-only | --check-diff', real='mformat.run, Formatter.format'), labels=('differs', 'clean')))
     out.append(Obligation('recursive', ob_recursive(), dict(real='mformat.run with --recursive, SubdirFetcher, Formatter.format on a scratch directory', directory_names=[n for n, s in REC_NAMES], spelled=[s for n, s in REC_NAMES],
                           tree='top + subdirectory (+ nested subdirectory)', unformatted='any subset', mode='--check-only | --check-diff | --inplace'), labels=('differs', 'clean')))
     return out
